@@ -61,14 +61,15 @@ theorem distLoop_value {collect : Expr → RwR} (hcol : Preserves ρ collect) :
                 simp only [evalKL, Option.some.injEq] at hR; subst hR
                 exact evalK_one ρ
               · exact ih _ _ _ hrest (by rw [evalK_prod]; exact hR)
-            obtain ⟨lead, hlead, h⟩ := bind_ok h
-            have hlead' := flatProd_value ρ hlead hL
             obtain ⟨terms, hterms, h⟩ := bind_ok h
             have := dist_terms_value ρ (L := L) (R := R) (f := fun sc => do
+                let lead ← flatProd (cs.takeWhile (fun c => !isSum c))
                 let p ← pyMul sc rest'
                 let d ← distLoop collect fuel p
                 pyMul lead d) (by
               intro sc t s hsc hs
+              obtain ⟨lead, hlead, hsc⟩ := bind_ok hsc
+              have hlead' := flatProd_value ρ hlead hL
               obtain ⟨p, hp, hsc⟩ := bind_ok hsc
               obtain ⟨d, hd, hsc⟩ := bind_ok hsc
               exact pyMul_value ρ hsc hlead' (ih _ _ _ hd (pyMul_value ρ hp hs hrest')))
